@@ -180,6 +180,8 @@ func runC06(c *Ctx) {
 	runC06R4(c)
 	r.Rule("R6-endpoints-immutable", "no store into a field of the url.URL behind ProviderData.LoginURL/RedeemURL/ProfileURL/ValidateURL", 1)
 	runC06R6(c, "R6-endpoints-immutable")
+	r.Rule("R7-configured-endpoint-and-rd-source", "Azure's tenant override touches only an unset/default endpoint; the rd candidate comes from req.Form (query and body)", 2)
+	runC06R7(c, "R7-configured-endpoint-and-rd-source")
 	runC06R5(c)
 }
 
@@ -799,5 +801,75 @@ func runC06R6(c *Ctx, rule string) {
 	}
 	if bad == 0 {
 		c.R.OK(rule, "shared-url-store|none", "-", sprintf("%d stores into url.URL fields in request-reachable provider and main code, none through a pointer derived from a configured endpoint (%d more in set-up code that runs before the provider is published)", n, setup))
+	}
+}
+
+// runC06R7: (a) an explicitly configured Azure endpoint is left alone: overrideTenantURL rewrites *current only when it
+// is nil/empty or its full String() equals the built-in default's String() — comparing anything less (the host)
+// replaces a configured authorization endpoint by the tenant default; (b) the `rd` candidate is read from the
+// parsed form (req.Form, which holds query AND POST-body values): the sign-in form posts rd in the body, and a
+// getter that only looks at the URL query drops the page the user asked for.
+func runC06R7(c *Ctx, rule string) {
+	ov := c.Fn(rule, "providers.overrideTenantURL")
+	if ov != nil {
+		n := 0
+		c.Walk(rule, ov, func(p *walk.Path) {
+			for i, s := range p.Steps {
+				st, ok := s.In.(*ssa.Store)
+				if !ok || s.F != 0 || p.Resolve(p.StepOp(st.Addr, s)).V != ssa.Value(ov.Params[0]) {
+					continue
+				}
+				n++
+				key := "override-only-default|" + fnKey(ov)
+				isStringOf := func(x walk.DV, param ssa.Value) bool {
+					cl, ok := extractOfCall(p, x, 0)
+					return ok && cl.C.StaticCallee() != nil && cl.C.StaticCallee().String() == "(*net/url.URL).String" && p.Resolve(p.Arg(cl, 0)).V == param
+				}
+				cur, def := ssa.Value(ov.Params[0]), ssa.Value(ov.Params[1])
+				okCond := false
+				if isNil, k := p.Nil(walk.DV{V: cur}, i); k && isNil {
+					okCond = true
+				}
+				if eqConstAtom(p, i, true, "", func(x walk.DV) bool { return isStringOf(x, cur) }) {
+					okCond = true
+				}
+				if eqAtom(p, i, true, func(x walk.DV) bool { return isStringOf(x, cur) }, func(x walk.DV) bool { return isStringOf(x, def) }) {
+					okCond = true
+				}
+				if okCond {
+					c.ok(rule, key, s.In, "rewritten only when unset or equal to the built-in default URL")
+				} else {
+					c.bad(rule, key, s.In, "the configured endpoint is overwritten on a path where it is not known to be unset or identical to the built-in default: an explicitly configured authorization endpoint is replaced", p, i)
+				}
+			}
+		})
+		if n == 0 {
+			c.R.Unknown(rule, "override-only-default|none", c.P.Pos(ov.Pos()), "overrideTenantURL never writes *current")
+		}
+	}
+	getter := c.Fn(rule, "(*pkg/app/redirect.appDirector).getRdQuerystringRedirect")
+	formF := c.P.Field("net/http.Request.Form")
+	if getter != nil && formF != nil {
+		key := "rd-from-form|" + fnKey(getter)
+		ok := false
+		for _, b := range getter.Blocks {
+			for _, in := range b.Instrs {
+				call, isCall := in.(*ssa.Call)
+				if !isCall || call.Call.StaticCallee() == nil || call.Call.StaticCallee().String() != "(net/url.Values).Get" {
+					continue
+				}
+				if k, isK := ConstString(call.Call.Args[1]); !isK || k != "rd" {
+					continue
+				}
+				if base, isF := walk.FieldLoadBase(unwrap0(call.Call.Args[0]), formF); isF && base == ssa.Value(getter.Params[1]) {
+					ok = true
+				}
+			}
+		}
+		if ok {
+			c.R.OK(rule, key, c.P.Pos(getter.Pos()), "req.Form.Get(\"rd\")")
+		} else {
+			c.R.Bad(rule, key, c.P.Pos(getter.Pos()), "the rd redirect candidate is not read from req.Form: a value posted in the sign-in form's body is ignored and the user lands on \"/\" instead of the page requested before login", nil, nil)
+		}
 	}
 }
